@@ -123,7 +123,8 @@ def run(ctx, out):
                 "mutating system call of small copies (overwrite with numbered backup, tree, tree overwrite); (c) one injected "
                 "errno at every call; (d) FIFO / socket / device sources whose mapped target is the source node itself through a "
                 "symlinked directory of the destination; (e) a dangling symbolic link (absolute / relative, pointing outside or "
-                "inside the destination) where a regular file is to be copied; in all of them every source and bystander entry is compared before/after (content, kind, "
+                "inside the destination) where a regular file is to be copied; (f) an operand that is a link to a directory, so that "
+                "the run itself creates the alias (the link's creation held back / random holds); in all of them every source and bystander entry is compared before/after (content, kind, "
                 "mode, owner, mtime, xattrs) and every mutating call of the trace must target a mapped destination path or its "
                 "backup; non-trivial = all; distinct = (case, point)")
     d0 = ctx.work.fresh("c03")
@@ -368,6 +369,34 @@ def run(ctx, out):
                     out.violation("copy over a dangling destination link created the link's target instead of the entry (exit %d)" % r.exit, rep)
                 elif r.exit == 0 and os.path.islink(os.path.join(d, "dst", "app", "conf")):
                     out.violation("exit 0 but dst/app/conf is still a symbolic link (the source has a regular file)", rep)
+                shutil.rmtree(d, ignore_errors=True)
+    # ---- (f) an alias that comes into being DURING the run: the operand is a symbolic link to a directory (copied as a
+    #      link, no -L), whose entries the walk then visits: the run itself creates dst/cur -> real, after which dst/cur/f
+    #      IS real/f.  Whatever the order in which walker and workers get to run (the link's creation is held back so that
+    #      the walker is far ahead; random holds), no file below `real` may be touched
+    for driver in ("parfile", "parblock"):
+        for linktext in ("abs", "rel"):
+            for (w, hold_link) in ((1, True), (4, True), (2, False)):
+                d = os.path.join(d0, "dyn_%s_%s_%d_%d" % (driver, linktext, w, hold_link))
+                os.makedirs(os.path.join(d, "real", "in"))
+                os.makedirs(os.path.join(d, "dst"))
+                for i in range(6):
+                    open(os.path.join(d, "real", "f%d" % i), "wb").write(b"precious %d\n" % i * 50)
+                open(os.path.join(d, "real", "in", "g"), "wb").write(b"nested precious\n" * 30)
+                open(os.path.join(d, "bystander"), "wb").write(b"by")
+                os.symlink(os.path.join(d, "real") if linktext == "abs" else "real", os.path.join(d, "cur"))
+                before = src_snapshot(d, [b"dst"])
+                argv = [ctx.bins["xcp"], "-r", "--driver", driver, "-w", str(w), "cur", "dst"]
+                rules = [("hold", 250, 0, "symlink", 0, "*"), ("hold", 250, 0, "symlinkat", 0, "*")] if hold_link else []
+                r = xcp.run_supervised(sup, argv, d, d, rules=rules, tag="y", timeout_ms=30000, seed=rng.randrange(1 << 30),
+                                       hold_permille=0 if hold_link else 300, hold_maxms=5)
+                after = src_snapshot(d, [b"dst"])
+                out.case(("alias-created-by-the-run", driver, linktext, w, hold_link), True)
+                out.count("alias_created_during_run")
+                why = cmp_snap(before, after)
+                if why:
+                    out.violation("operand `cur` is a link to a directory; the run created dst/cur and then wrote through it: %s (exit %d)"
+                                  % (why, r.exit), dict(argv=argv[1:], rules=rules, exit=r.exit, stderr=r.stderr[-300:]))
                 shutil.rmtree(d, ignore_errors=True)
     if ctx.model_ok and minputs:
         res = core.run_model("run_copy_actions", minputs, shard=20, tag="c03")
